@@ -613,16 +613,16 @@ func oneRun(cfg runCfg, out *childOut, omu *sync.Mutex) {
 						}
 						pw, err := ws.PackfileWriter()
 						if err != nil {
-							fail("writer-error:packfile-writer", err.Error())
+							count("writer_errors_packfile-writer", 1)
 							return
 						}
 						enc := packfile.NewEncoder(pw, ms, false)
 						if _, err := enc.Encode(hs, 0); err != nil {
-							fail("writer-error:encode", err.Error())
+							count("writer_errors_encode", 1)
 							return
 						}
 						if err := pw.Close(); err != nil {
-							fail("writer-error:packfile-close", err.Error())
+							count("writer_errors_packfile-close", 1)
 							return
 						}
 						pubMu.Lock()
@@ -637,7 +637,7 @@ func oneRun(cfg runCfg, out *childOut, omu *sync.Mutex) {
 						w.Close()
 						h, err := ws.SetEncodedObject(o)
 						if err != nil {
-							fail("writer-error:set-object", err.Error())
+							count("writer_errors_set-object", 1)
 							return
 						}
 						sum := sha256.Sum256(content)
@@ -661,7 +661,7 @@ func oneRun(cfg runCfg, out *childOut, omu *sync.Mutex) {
 					repo, err := git.Open(ws, nil)
 					if err == nil {
 						if err := repo.RepackObjects(&git.RepackConfig{UseRefDeltas: n%2 == 0}); err != nil {
-							fail("writer-error:repack", err.Error())
+							count("writer_errors_repack", 1)
 							return
 						}
 					}
